@@ -172,7 +172,7 @@ class Ctx:
         return r
 
     # ------------------------------------------------------------------ trace validation
-    def split_recordings(self, files, per_piece):
+    def split_recordings(self, files, per_piece, keep=False):
         """Cuts recording files into pieces of at most per_piece recordings (a rejection costs one re-validation of
         the rest of its piece, so files with many expected rejections - known findings - are validated in small pieces)."""
         pieces = []
@@ -195,7 +195,8 @@ class Ctx:
                 out.write(line)
             if out:
                 out.close()
-            os.remove(f)
+            if not keep:
+                os.remove(f)
         return pieces
 
     def validate(self, files, module="TraceAbs.tla", cfg="TraceAbs.cfg", dfs=False, max_rej=12, soft_timeout=None, per_piece=None):
@@ -203,6 +204,27 @@ class Ctx:
         Returns a list of rejections: dict(file, chunk_lines, at, recording_id)."""
         if per_piece:
             files = self.split_recordings(files, per_piece)
+        def one_single(f):
+            """one recording, a third of the soft limit"""
+            try:
+                r = self.tlc(module, cfg, env={"TRACE": f}, workers=1, dfs=dfs, timeout=max(30, soft_timeout // 3))
+            except TLCTimeout:
+                self.cov["unexamined_recordings"] = self.cov.get("unexamined_recordings", 0) + 1
+                head = open(f).readline()
+                m = re.search(r'"id":"([^"]+)"', head)
+                self.notes.append("TLC did not finish recording %s within %d s: left unexamined" % (m.group(1) if m else os.path.basename(f), max(30, soft_timeout // 3)))
+                return []
+            self.cov["states"] += r["distinct"]
+            self.cov["transitions"] += r["generated"]
+            if r["error"]:
+                raise Inconclusive("TLC error while validating %s:\n%s" % (f, r["error"]))
+            if r["rejected_at"] is None:
+                return []
+            lines = open(f).read().split("\n")
+            if lines and lines[-1] == "":
+                lines.pop()
+            return [dict(chunk=lines, at=r["rejected_at"], source=f)]
+
         def one(f):
             rejs = []
             cur = f
@@ -216,8 +238,16 @@ class Ctx:
                 except TLCTimeout:
                     if not soft_timeout:
                         raise
-                    # a linearization search that does not finish in time decides nothing about these
-                    # recordings: they are counted as unexamined (evidence), not as a failure of the check
+                    # a linearization search that does not finish in time decides nothing: the file is cut into its
+                    # recordings, each gets a third of the limit, and only those that still do not finish are
+                    # counted as unexamined (evidence), not as a failure of the check
+                    if nlines > 0 and not cur.endswith(".single") and sum(1 for x in open(cur) if '"e":"reset"' in x) > 1:
+                        for piece in self.split_recordings([cur], 1, keep=True):
+                            single = piece + ".single"
+                            os.rename(piece, single)
+                            rejs.extend(one_single(single))
+                        cur = f
+                        break
                     self.cov["unexamined_files"] = self.cov.get("unexamined_files", 0) + 1
                     self.notes.append("TLC did not finish %s within %d s: recordings left unexamined" % (os.path.basename(cur), soft_timeout))
                     break
